@@ -116,6 +116,23 @@ def match_known(mod, scn, violation, known):
     return None
 
 
+def exception_origin(exc):
+    """'file.py:function' of the innermost frame if - walking outwards from where the exception was raised - a frame
+    of the ascmhl package is met before a frame of this framework; None otherwise (then it is our own bug)"""
+    tb = exc.__traceback__
+    frames = []
+    while tb is not None:
+        frames.append(tb.tb_frame.f_code)
+        tb = tb.tb_next
+    for code in reversed(frames):
+        fn = code.co_filename
+        if os.sep + "mhlverif" + os.sep in fn:
+            return None
+        if os.sep + "ascmhl" + os.sep in fn and os.sep + "site-packages" + os.sep not in fn:
+            return "%s:%s" % (os.path.basename(fn), code.co_name)
+    return None
+
+
 def make_body(mod, ctx, known):
     from .world import Violation
 
@@ -153,12 +170,31 @@ def make_body(mod, ctx, known):
                 rec["result"] = v.result.brief()
                 rec["tb"] = v.result.tb
             raise
-        except Exception:
+        except Exception as exc:
             from hypothesis.errors import HypothesisException, UnsatisfiedAssumption
 
             et = sys.exc_info()[0]
             if issubclass(et, (HypothesisException, UnsatisfiedAssumption)):
                 raise
+            origin = exception_origin(exc)
+            if origin is not None:
+                # the exception was raised inside the tool (a library entry point called directly by the check): that is
+                # a finding about the tool, not a defect of the harness
+                v = Violation("tool-exception", "%s: %s (raised in %s)" % (type(exc).__name__, str(exc)[:300], origin))
+                sig = "tool-exception|%s|%s" % (type(exc).__name__, origin)
+                v.signature = lambda sig=sig: sig
+                if sig in ctx.ignored_sigs:
+                    return
+                if ctx.focus_sig is not None and sig != ctx.focus_sig:
+                    ctx.failures.setdefault(sig, {"scenario": scn, "clause": v.clause, "detail": v.detail, "n": 0})
+                    return
+                if ctx.focus_sig is None:
+                    ctx.focus_sig = sig
+                    ctx.shrink_deadline = time.time() + (60 if ctx.tier == "quick" else 200)
+                rec = ctx.failures.setdefault(sig, {"n": 0})
+                rec.update(scenario=scn, clause=v.clause, detail=v.detail, tb=traceback.format_exc()[-3000:])
+                rec["n"] += 1
+                raise v
             ctx.harness_error = traceback.format_exc() + "\nscenario: " + json.dumps(scn)[:2000]
             return
         finally:
@@ -291,6 +327,12 @@ def replay_file(mod, path, known):
         return "violation", {"clause": v.clause, "detail": v.detail, "signature": v.signature(),
                              "result": v.result.brief() if v.result else None,
                              "tb": v.result.tb if v.result else None}
+    except Exception as exc:
+        origin = exception_origin(exc)
+        if origin is None:
+            raise
+        return "violation", {"clause": "tool-exception", "detail": "%s: %s (raised in %s)" % (type(exc).__name__, str(exc)[:300], origin),
+                             "signature": "tool-exception|%s|%s" % (type(exc).__name__, origin), "result": None, "tb": traceback.format_exc()[-3000:]}
     return "ok", None
 
 
